@@ -53,12 +53,13 @@ def adapt(run):
             out.append({"ev": "End"})
         if "obs" in ev and k != "end":
             o = ev["obs"]
-            bufs = [[] for _ in range(mod)]
-            for key, v in o.get("buf", []):
-                bufs[0 if key == -1 else key] = list(v)
-            out.append({"ev": "ObsBuf", "buf": bufs})
-            if run["cfg"].get("timeout"):
-                out.append({"ev": "ObsTimers", "armed": o.get("armed", [])})
+            if "buf" in o:                                           # (private state: compared only if readable)
+                bufs = [[] for _ in range(mod)]
+                for key, v in o["buf"]:
+                    bufs[0 if key == -1 else key] = list(v)
+                out.append({"ev": "ObsBuf", "buf": bufs})
+            if run["cfg"].get("timeout") and "armed" in o:
+                out.append({"ev": "ObsTimers", "armed": o["armed"]})
             out.append({"ev": "ObsRc", "rc": o["rc"]})
     for x in out:
         x.pop("_b", None)
